@@ -92,7 +92,7 @@ def classify(kind, plan, rec, key=None, world=None):
                 open_now.add(ev[2])
             elif what == "socket_close":
                 open_now.discard(ev[2])
-            live = {n for n in open_now if not (n in leaked_at and leaked_at[n] <= t + 1e-6)}
+            live = {n for n in open_now if not (n in leaked_at and leaked_at[n] <= t + 2e-3)}  # world.log times are rounded to 1 ms
             worst = max(worst, len(live))
         if worst <= 5:
             return "cancelled-inside-server_connected-hook"
